@@ -84,7 +84,7 @@ CHECKS["C06"] = ("Proof: C06.used_blocks_never_modified — a whole --add leaves
                  "saves the loaded sides and (fd) rewrites the image byte for byte. The frame on sectors of used blocks is proved inside the "
                  "invariant proof (mid_facts), the byte frame of table/catalog is checked. Tie/oracle: pre-images from tool histories, an "
                  "independent writer (incl. full catalog + fragmented free space) and the bundled real image, then arbitrary batches; byte-level frame check.", D, "7 C06")
-CHECKS["C07"] = ("Proof: C07.wellformed_image_extracted_exactly — for every four-sided image whose sides are consistent file systems (any writer, "
+CHECKS["C07"] = ("Proof: C07.images_of_one_two_or_four_sides — emulator images of 1 or 2 sides and 4-sided images of either flavour are loaded, listed and extracted exactly (load_save_n); C07.wellformed_image_extracted_exactly — for every four-sided image whose sides are consistent file systems (any writer, "
                  "any allocation order, fragmentation, deleted / never-used entries anywhere) with ordinary names, --extract returns 0 and writes "
                  "per side exactly the files the independent decoder Spec.Dos.files finds, in catalog order, with the content it assigns to the "
                  "chain; C07.independent_writer_is_read_exactly — for every well-formed description of a side (any slots, allocation order, "
